@@ -56,6 +56,50 @@ def category_sweep(chk):
     return n
 
 
+def rich_extremes(chk, rnd, n):
+    """Rich frames (sub-second timestamps, extreme integers, specials): the discovered bounds are values of the data."""
+    from tdda.constraints import discover_df
+    from harness import verify_session as vs
+    cnt = 0
+    for _ in range(n):
+        df, kinds = vs.rich_frame(rnd)
+        try:
+            with cl.quiet():
+                cs = discover_df(df.copy(), inc_rex=False)
+        except Exception:
+            continue           # C01 owns "never raises"
+        if cs is None:
+            continue
+        fields = json.loads(cs.to_json())['fields']
+        for name, kind in kinds.items():
+            fd = fields.get(name, {})
+            col = df[name].dropna()
+            if len(col) == 0:
+                continue
+            for key, agg in (('min', 'min'), ('max', 'max')):
+                if key not in fd:
+                    continue
+                got = fd[key]['value'] if isinstance(fd[key], dict) else fd[key]
+                try:
+                    if kind.startswith('dt_') and kind != 'dt_tz':
+                        want = getattr(col, agg)()
+                        ok = pd.Timestamp(got) == pd.Timestamp(want)
+                    elif kind in ('int64', 'uint8', 'Int64', 'int_extreme'):
+                        want = int(getattr(col, agg)())
+                        ok = int(got) == want
+                    else:
+                        continue
+                except Exception:
+                    continue
+                cnt += 1
+                chk.coverage['replayed_cases'] += 1
+                if not ok:
+                    chk.violation({'kind': 'discovery', 'clause': 'DiscoverIsSpec', 'ckind': key, 'coltype': kind, 'variant': 'rich'},
+                                  {'column_kind': kind, 'field': name, 'discovered': got, 'actual': str(want),
+                                   'how': 'discover_df(rich frame).to_json(): the bound must be attained by a record'})
+    return cnt
+
+
 def run(chk):
     thorough = chk.tier == 'thorough'
     rows = run_.model_rows(chk, 4 if thorough else 3)
@@ -64,6 +108,7 @@ def run(chk):
     chk.coverage['columns'] = len(rows)
     run_.replay(chk, rows, ('discover',), thorough, chk.seed, CLAUSES, 'discovery')
     chk.coverage['category_sweep_cases'] = category_sweep(chk)
+    chk.coverage['rich_extreme_bounds'] = rich_extremes(chk, random.Random(chk.seed + 7), 1500 if thorough else 250)
     from checks import c08
     chk.coverage['sqlite_tables'] = c08.discover_only(chk, rows, random.Random(chk.seed), None if thorough else 700, sig_kind='discovery')
     r = rows[len(rows) // 3]
